@@ -79,7 +79,7 @@ def _case(draw):
         "resp_opts": draw(_inner_options()),
         "resp_payload": draw(st.sampled_from([0, 1, 50, 1500])),
         "resp_own_piv": draw(st.booleans()),
-        "tamper": draw(st.lists(st.tuples(st.sampled_from(["ct-bit", "opt-bit", "opt-trunc", "opt-piv", "opt-kid", "opt-idctx", "opt-insert-idctx", "opt-other", "opt-extend", "ctx-secret", "ctx-salt", "ctx-sid", "ctx-rid", "ctx-idctx", "ctx-alg"]), st.integers(0, 10**6)).map(list), min_size=2, max_size=8)),
+        "tamper": draw(st.lists(st.tuples(st.sampled_from(["ct-bit", "opt-bit", "opt-trunc", "opt-piv", "opt-piv-pad", "opt-kid", "opt-idctx", "opt-insert-idctx", "opt-other", "opt-extend", "ctx-secret", "ctx-salt", "ctx-sid", "ctx-rid", "ctx-idctx", "ctx-alg"]), st.integers(0, 10**6)).map(list), min_size=2, max_size=8)),
         "second": draw(st.booleans()),
     }
 
@@ -317,7 +317,7 @@ def run_case(c):
                 new_opt = optraw + bytes([n % 256])
                 if which == "response" and not (optraw and optraw[0] & 0x08):
                     pass
-            elif kind in ("opt-piv", "opt-kid", "opt-idctx", "opt-insert-idctx", "opt-other"):
+            elif kind in ("opt-piv", "opt-piv-pad", "opt-kid", "opt-idctx", "opt-insert-idctx", "opt-other"):
                 if not optraw:
                     continue
                 first = optraw[0]
@@ -338,6 +338,11 @@ def run_case(c):
                     if newpiv == piv or newpiv.lstrip(b"\0") == piv.lstrip(b"\0") and which == "response":
                         continue
                     piv = newpiv
+                elif kind == "opt-piv-pad":
+                    # the same number written with leading zero bytes: for a request the partial IV bytes are part of the AAD
+                    if not pivlen or pivlen >= 5:
+                        continue
+                    piv = b"\0" * (1 + n % (5 - pivlen)) + piv
                 elif kind == "opt-kid":
                     if not has_k:
                         continue
@@ -441,7 +446,7 @@ RULE = (
     "(encode -> Message.decode) and are unprotected through the sequence real callers use (_extract_encrypted0 -> get_oscore_context_for / context_from_response -> unprotect). Oracles: round trip of "
     "code, options, payload; outer code in {POST, FETCH, 2.04, 2.05}, outer option numbers within {OSCORE, Uri-Host, Uri-Port, Proxy-Uri, Proxy-Scheme, Observe}, marker and inner string option values "
     "absent from the outer bytes; the response does not verify with the identifiers of a second request; 2-8 tamperings applied to request and response (bit flip in ciphertext||tag, bit flip / truncation / "
-    "extension of the OSCORE option, changed PIV / KID / ID context, inserted ID context, option of another message, recipient context differing in secret / salt / sender ID / recipient ID / ID context / "
+    "extension of the OSCORE option, changed PIV / zero-padded PIV (requests) / KID / ID context, inserted ID context, option of another message, recipient context differing in secret / salt / sender ID / recipient ID / ID context / "
     "algorithm) must end in ProtectionInvalid (or subclass) or 'no context found' -- never a message, never another exception type. Non-trivial = >= 3 inner options, or a tampering that reached "
     "decryption. Distinct = SHA-1 of the case."
 )
